@@ -107,6 +107,7 @@ type privRef struct {
 }
 
 type stateBase struct {
+	loopHavoc bool // havoc at a loop head: private objects are not exempt
 	// exactly one of the following shapes:
 	epoch int // fresh epoch: arrays are base constants name@epoch
 	// havoc: arrays are fresh unless preserved from 'from'
